@@ -43,7 +43,7 @@ ASSUMPTIONS = [
     "pandas/parquet I/O is not intercepted; workloads use str, bytes and pickled results",
     "crash points are complete per sampled workload only; workloads are sampled",
 ]
-PROBES = ["root_is_kept", "literal_kill_crosscheck", "recoveries_executed", "crash_blob_present_meta_absent", "crash_half_blob", "crash_half_meta", "crash_between_remove_and_symlink",
+PROBES = ["clock_advanced_between_phases", "root_is_kept", "literal_kill_crosscheck", "recoveries_executed", "crash_blob_present_meta_absent", "crash_half_blob", "crash_half_meta", "crash_between_remove_and_symlink",
           "crash_during_store_creation", "crash_link_tmp_or_rename", "crash_rekeep", "second_crash",
           "crash_nested_data_dir"]
 
@@ -68,6 +68,8 @@ def gen_case(streams, tier, avoid):
         "second": 0,
         # how the root is evaluated: dds.eval(f0), or - for a root that is a data function - the plain call f0()
         "root_style": cfg.choice(["call", "call", "eval"]) if root_kept else "eval",
+        # simulated time between the set-up runs, the victim and the recoveries (minutes .. months)
+        "clock_advance": cfg.choice([0, 0, 90.0, 7200.0, 86400.0 * 40]),
     }
     case["second"] = cfg.choice([0, 0, 2]) if tier == "quick" else cfg.choice([0, 3, 6])
     case["second_seed"] = cfg.randrange(1 << 30)
@@ -191,8 +193,22 @@ def _run(case, root):
     if probe_root:
         probe("root_is_kept")
 
+    adv = float(case.get("clock_advance") or 0)
+
+    def mk_sim(phase):
+        """Every later phase (victim, recovery, ...) starts `clock_advance` simulated seconds after the previous one."""
+        sm = Sim(live, seed_hex)
+        if adv and phase:
+            sm.wall += adv * phase
+            sm.mono += adv * phase
+        return sm
+
+    if adv:
+        probe("clock_advanced_between_phases")
+        faults["clock_jump"] = faults.get("clock_jump", 0) + 1
+
     def run_to_end(jb):
-        sim = Sim(live, seed_hex)
+        sim = mk_sim(0)
         try:
             p = sim.spawn(jb)
             n = sim.run_alone(p)
@@ -227,7 +243,7 @@ def _run(case, root):
     # literally and compared with the recorded state.
     snaps = os.path.join(root, "snaps")
     os.makedirs(snaps)
-    sim = Sim(live, seed_hex)
+    sim = mk_sim(1)
     gate_info = []          # per gate: (parked_at, state hash)
     snap_of = {}            # state hash -> snapshot dir
     try:
@@ -320,7 +336,7 @@ def _run(case, root):
         if i in literal:
             # literal kill -9 of a re-run victim parked at gate i; must leave the recorded state
             restore()
-            sim = Sim(live, seed_hex)
+            sim = mk_sim(1)
             try:
                 v = sim.spawn(job(src_new, [ev]))
                 sim.run_alone(v, kill_at=i)
@@ -346,7 +362,7 @@ def _run(case, root):
         _crash_probes(parked, live, idir, probe, case)
         if len(crash) > 1:
             # second crash inside the recovery
-            sim = Sim(live, seed_hex)
+            sim = mk_sim(2)
             try:
                 r1 = sim.spawn(rec_job)
                 sim.run_alone(r1, kill_at=crash[1])
@@ -357,7 +373,7 @@ def _run(case, root):
                 steps += sim.seq
             finally:
                 sim.close()
-        sim = Sim(live, seed_hex)
+        sim = mk_sim(3)
         try:
             r = sim.spawn(rec_job)
             n = sim.run_alone(r, max_steps=20000)
@@ -371,7 +387,7 @@ def _run(case, root):
         else:
             found += check_recovery_results(r, crash, what)
         if not found and case["edit"] is not None:
-            sim = Sim(live, seed_hex)
+            sim = mk_sim(4)
             try:
                 r2 = sim.spawn(rec_old_job)
                 n2 = sim.run_alone(r2)
@@ -466,6 +482,10 @@ def shrink(case):
         if c["edit"] and c["edit"]["f"] == fn:
             c["edit"] = None
         yield c
+    if base.get("clock_advance"):
+        c = copy.deepcopy(base)
+        c["clock_advance"] = 0
+        yield c
     if base["setup_evals"] > 0:
         c = copy.deepcopy(base)
         c["setup_evals"] -= 1
@@ -508,6 +528,8 @@ def tags(case):
         t.add("cache")
     if case["prog"]["funcs"]["f0"]["kind"] == "data":
         t.add("root:kept")
+    if case.get("clock_advance"):
+        t.add("clock:advanced")
     return sorted(t)
 
 
